@@ -4,6 +4,7 @@ import random
 from ..harness import Scenario, gen_cfg, make_long, make_phase, ref_alpha
 from ..riverlike import RealScenario, gen_real_cfg
 from ..probes import InjectedFault
+from ..core import config_guard
 from ..explref import SageRef, Mismatch, compare
 
 SHARDS = {"quick": 3, "thorough": 16}
@@ -189,10 +190,14 @@ def main(run):
         if i in (50, 51, 53, 56) or (run.tier == "thorough" and i % 300 == 50):      # model that becomes informative after ~40 observations
             make_phase(cfg, rnd, dyn=(i == 51))
             run.count("late-informative-model-configs")
-        run_config(run, cfg, rnd.randrange(2 ** 31), f"s{run.shard[0]}c{i}")
+        seed_ = rnd.randrange(2 ** 31)
+        with config_guard(run):
+            run_config(run, cfg, seed_, f"s{run.shard[0]}c{i}")
         if i % 12 == 11:       # a real river model that keeps learning, river streams, river metrics, the library's wrappers
             rcfg = gen_real_cfg(rnd, "sage", need_decode=True)
-            run_config(run, rcfg, rnd.randrange(2 ** 31), f"s{run.shard[0]}c{i}real")
+            seed_ = rnd.randrange(2 ** 31)
+            with config_guard(run):
+                run_config(run, rcfg, seed_, f"s{run.shard[0]}c{i}real")
         if i % 6 == 5 and cfg["imputer"] != "library-default" and cfg["storage"][0] != "library-default":
             cfg2 = dict(cfg, vary_calls=False, warm_start=0, out_type=("plain" if cfg.get("out_type") == "u8-loss" else cfg.get("out_type", "plain")))
             run_shared(run, cfg2, rnd.randrange(2 ** 31), f"s{run.shard[0]}c{i}shared")
